@@ -52,11 +52,12 @@ SAFE_METHODS = {(str, "find"), (str, "startswith"), (str, "endswith"), (str, "st
 
 
 class Evaluator:
-    def __init__(self, func_node, globals_env=None, call_hook=None, max_steps=20000):
+    def __init__(self, func_node, globals_env=None, call_hook=None, max_steps=20000, obj_types=()):
         self.func = func_node
         self.genv = dict(globals_env or {})
         self.call_hook = call_hook       # (name, args, kwargs) -> value, or raises Unsupported
         self.max_steps = max_steps
+        self.obj_types = tuple(obj_types)
 
     def call(self, *args, **kwargs):
         a = self.func.args
@@ -258,8 +259,10 @@ class Evaluator:
             if isinstance(base, dict) and MODKEY in base:
                 if e.attr in base:
                     return base[e.attr]
+            if self.obj_types and isinstance(base, self.obj_types) and hasattr(base, e.attr) and not callable(getattr(base, e.attr)):
+                return getattr(base, e.attr)
             raise Unsupported(f"attribute {ast.unparse(e)}")
-        if isinstance(e, ast.ListComp) and len(e.generators) == 1 and not e.generators[0].is_async:
+        if isinstance(e, (ast.ListComp, ast.GeneratorExp)) and len(e.generators) == 1 and not e.generators[0].is_async:
             g = e.generators[0]
             res = []
             sub = dict(env)
@@ -271,7 +274,12 @@ class Evaluator:
         raise Unsupported(f"expression {type(e).__name__}: {ast.unparse(e)[:60]}")
 
     def _call(self, e, env):
-        args = [self._expr(a, env) for a in e.args]
+        args = []
+        for a in e.args:
+            if isinstance(a, ast.Starred):
+                args.extend(self._expr(a.value, env))
+            else:
+                args.append(self._expr(a, env))
         kwargs = {k.arg: self._expr(k.value, env) for k in e.keywords}
         f = e.func
         if isinstance(f, ast.Attribute):
